@@ -362,6 +362,7 @@ func propC16(c *ctx) error {
 	if err := c16Twins(c, r); err != nil {
 		return err
 	}
+	c16ErrorTexts(c, r)
 	if err := c16Nested(c, r); err != nil {
 		return err
 	}
@@ -791,6 +792,91 @@ func c16LateLoad(c *ctx, r *rng) error {
 // name (function-local types), the same field names in another order or with other kinds, a map with the same keys —
 // on one template object, on fresh objects and on fresh managers.  Nothing learnt from one value's type may be
 // applied to another's.  Native oracle.
+// c16ErrorTexts: a failing execution reports the same error — the same TEXT, positions included — whether the template
+// object is fresh or has been executed before (successfully or not), for a failure in every kind of directive.
+func c16ErrorTexts(c *ctx, r *rng) {
+	res := c.res
+	tpls := []string{
+		"<ul>\n  <li :range=\"i, it : resp.Items\" :text=\"${it}\">x</li>\n</ul>",
+		"<ul><li :range=\"it : resp.Items\">${it}</li></ul>",
+		"<p>\n <b :text=\"pre ${resp.Title} post\">x</b></p>",
+		"<p :if=\"${resp.Ok}\">y</p><p :else>n</p>",
+		"<div :with=\"a := ${one}; b := ${resp.Title}\"><i :text=\"${a}${b}\">x</i></div>",
+		"<a :href=\"/u/${resp.Id}\" :title=\"${one}\">l</a>",
+		"<p>\n\n   <t:block :text=\"${one + resp.N}\"/></p>",
+		"<div :insert=\"${resp.Frag}\">d</div>",
+		"<p :range=\"k, v : m\"><b :range=\"j, w : v.Items\" :text=\"${w}\">x</b></p>",
+		"<p :raw=\"${resp.Html}\">r</p><p :text=\"${1 / resp.Zero}\">z</p>",
+	}
+	good := func(k int) map[string]any {
+		return map[string]any{"one": 1, "resp": map[string]any{"Items": []any{k, "b"}, "Title": fmt.Sprint("t", k), "Ok": k%2 == 0, "Id": k, "N": k, "Frag": "t", "Html": "<i>", "Zero": 1 + k},
+			"m": map[string]any{"k": map[string]any{"Items": []any{k}}}}
+	}
+	bads := []map[string]any{
+		{"one": 1},
+		{"one": 1, "resp": map[string]any{}, "m": map[string]any{"k": map[string]any{}}},
+		{"one": 1, "resp": map[string]any{"Items": 5, "Title": nil, "Ok": "x", "Zero": 0, "N": "s", "Frag": "nope"}, "m": map[string]any{"k": 3}},
+	}
+	exec := func(t types.Template, data any) (out, errS string) {
+		var sb strings.Builder
+		err := func() (err error) {
+			defer func() {
+				if x := recover(); x != nil {
+					err = fmt.Errorf("panic: %v", x)
+				}
+			}()
+			return t.Execute(&sb, data)
+		}()
+		if err != nil {
+			errS = err.Error()
+		}
+		return sb.String(), errS
+	}
+	for ti, src := range tpls {
+		fresh := func() types.Template {
+			m := html.NewTplManager()
+			if err := m.Add("t", strings.NewReader(src)); err != nil {
+				return nil
+			}
+			if err := m.Add("u", strings.NewReader("<p>frag</p>")); err != nil {
+				return nil
+			}
+			t, _ := m.GetTemplate("t")
+			return t
+		}
+		shared := fresh()
+		if shared == nil {
+			res.SelfTest = append(res.SelfTest, "C16 error-text template does not load: "+src)
+			continue
+		}
+		for round := 0; round < 3; round++ {
+			var hist []any
+			for s, steps := 0, 4+r.n(5); s < steps; s++ {
+				var data map[string]any
+				if r.p(50) {
+					data = bads[r.n(len(bads))]
+				} else {
+					data = good(r.n(4))
+					if ti == 7 {
+						data["resp"].(map[string]any)["Frag"] = "u"
+					}
+				}
+				hist = append(hist, data)
+				wantOut, wantErr := exec(fresh(), data)
+				gotOut, gotErr := exec(shared, data)
+				res.S3Checked++
+				res.count("error_text_histories")
+				if gotOut != wantOut || gotErr != wantErr {
+					res.violate(J{"tpl": src, "history": hist}, J{"out": wantOut, "err": wantErr}, J{"out": gotOut, "err": gotErr},
+						fmt.Sprintf("execution #%d on a reused template object reports another error text (or output) than a fresh execution with the same data", len(hist)))
+					break
+				}
+			}
+			res.eval(fmt.Sprintf("errtext|%d|%s", ti, jstr(hist)), true, J{"tpl": src})
+		}
+	}
+}
+
 func c16Twins(c *ctx, r *rng) error {
 	res := c.res
 	mk, tpls := twinMk, twinTpls
